@@ -1,5 +1,6 @@
 import ParryModel.Field
 import ParryModel.C08.Lemmas
+import ParryModel.C08.RefitLemmas
 /-!
 # C08 property theorems: the QBVH stays valid under any history
 
@@ -110,6 +111,77 @@ theorem step_total (fixRoot : Bool) (w : World K) (op : Op K) (h : Inv w.q) (hok
   | refit m => exact absurd rfl (hop m)
 
 end structural
+
+/-! ## Boxes: `refit` establishes the box invariant (exact arithmetic: any linearly ordered field) -/
+section boxes
+variable {K : Type} [Field K] [LinearOrder K] [IsStrictOrderedRing K] (sq : K → K)
+
+/-- one lane of `SimdAabb::contains` is coordinate-wise containment -/
+theorem boxContains_iff (a b : Aabb3 K) :
+    letI := fieldNum K sq
+    boxContains a b = true ↔
+      (a.mins.x ≤ b.mins.x ∧ a.mins.y ≤ b.mins.y ∧ a.mins.z ≤ b.mins.z) ∧
+      (b.maxs.x ≤ a.maxs.x ∧ b.maxs.y ≤ a.maxs.y ∧ b.maxs.z ≤ a.maxs.z) := by
+  simp [boxContains, and_assoc]
+
+/-- containment is a preorder, `loosen(m)` with `m ≥ 0` is extensive, `to_merged_aabb` is the least box containing
+the four lanes — for every linearly ordered field -/
+theorem boxLaws_field : @BoxLaws K (fieldNum K sq) := by
+  letI := fieldNum K sq
+  refine ⟨?_, ?_, ?_, ?_, ?_⟩
+  · intro a; rw [boxContains_iff]; simp
+  · intro a b c h1 h2
+    rw [boxContains_iff] at *
+    obtain ⟨⟨a1, a2, a3⟩, a4, a5, a6⟩ := h1
+    obtain ⟨⟨b1, b2, b3⟩, b4, b5, b6⟩ := h2
+    exact ⟨⟨a1.trans b1, a2.trans b2, a3.trans b3⟩, b4.trans a4, b5.trans a5, b6.trans a6⟩
+  · intro m b hm
+    rw [boxContains_iff]
+    simp only [loosenBox]
+    refine ⟨⟨?_, ?_, ?_⟩, ?_, ?_, ?_⟩ <;> linarith
+  · intro v l b hb
+    rw [boxContains_iff]
+    simp only [mergedBox, fieldNum_nmin, fieldNum_nmax]
+    rcases vec4_lane _ _ _ hb with rfl | rfl | rfl | rfl <;> simp at hb <;> subst hb <;>
+      simp [le_max_iff, min_le_iff]
+  · intro v x h
+    have h0 := (boxContains_iff sq _ _).1 (h 0 v[0] (by simp))
+    have h1 := (boxContains_iff sq _ _).1 (h 1 v[1] (by simp))
+    have h2 := (boxContains_iff sq _ _).1 (h 2 v[2] (by simp))
+    have h3 := (boxContains_iff sq _ _).1 (h 3 v[3] (by simp))
+    rw [boxContains_iff]
+    simp only [mergedBox, fieldNum_nmin, fieldNum_nmax, le_min_iff, max_le_iff]
+    tauto
+
+/-- **`refit` establishes the box invariant.**  From any state satisfying the structural invariant in which every live
+node is either up to date or flagged DIRTY and queued (`Tracked`), and every DIRTY flag is queued (`DirtyQueued`),
+for every margin `≥ 0`: if the loop finishes, then afterwards *every live node's lane boxes contain the boxes below
+them and the current boxes of their leaves* (`BoxInv`), the work list is empty, no DIRTY flag is left and the
+structural invariant still holds. -/
+theorem refit_establishes_boxInv (q : Q K) (cur : Nat → Aabb3 K) (margin : K) (hm : 0 ≤ margin) :
+    letI := fieldNum K sq
+    Inv q → Tracked q cur → DirtyQueued q → ∀ r : Q K × Nat, refit q cur margin = some r →
+      Inv r.1 ∧ BoxInv r.1 cur ∧ r.1.dirtyNodes = [] ∧
+        (∀ (n : Nat) (nd : Node K), r.1.nodes[n]? = some nd → nd.dirty = false) := by
+  letI := fieldNum K sq
+  intro hinv ht hd r hr
+  exact refit_establishes (boxLaws_field sq) q cur margin hm hinv ht hd r hr
+
+/-- what `BoxInv` means lane by lane: in a live leaf every occupied lane box contains the current box of its proxy;
+in a live internal node every lane box contains all four lane boxes of the child node (hence, transitively, everything
+below) -/
+theorem boxInv_semantic (q : Q K) (cur : Nat → Aabb3 K) :
+    letI := fieldNum K sq
+    BoxInv q cur → ∀ (n : Nat) (nd : Node K), q.nodes[n]? = some nd → Live q n →
+      ∀ (l c : Nat) (b : Aabb3 K), nd.children[l]? = some c → nd.boxes[l]? = some b →
+        (nd.leaf = true → ∀ pr : Proxy, q.proxies[c]? = some pr → boxContains b (cur pr.data) = true) ∧
+        (nd.leaf = false → ∀ cn : Node K, q.nodes[c]? = some cn →
+          ∀ (l' : Nat) (b' : Aabb3 K), cn.boxes[l']? = some b' → boxContains b b' = true) := by
+  letI := fieldNum K sq
+  intro hb n nd hn hlive l c b hc hbx
+  exact goodNode_semantic (boxLaws_field sq) q cur nd (hb n nd hn hlive) l c b hc hbx
+
+end boxes
 
 /-! non-vacuity: a concrete history over `ℚ` reaching the root split, and the invariant evaluated on it -/
 section examples
